@@ -406,9 +406,14 @@ class Gen:
                 wrapped_at = b' '.join(parts)
                 self.add(f'TYPED X2W {shp} {hx(wrapped_el)}', 'any', expect_ok_bytes(opaque(bs)), 'bin-x2w-ws')
                 self.add(f'TYPED RT {shp} {hx(wrapped_el)}', 'any', expect_ok_bytes(b64), 'bin-rt-ws')
+                # OTA ICON / DRMREL KeyValue (former finding b64-whitespace-ota-drmrel, fixed): a truncated opaque is a violation.
+                # An attribute value reaches the encoder with its line ends and TABs already turned into spaces by the XML parser;
+                # the DRMREL routine is called directly and sees every kind of white space.
                 if not any(b64.startswith(p) for p in self.ota_value_prefixes):
-                    self.add(f'TYPED X2W {LANG_OTA} I PARM VALUE {hx(wrapped_at)}', 'any', expect_ok_bytes(opaque(bs)), 'ota-x2w-ws', kf='b64-ws-nostrip')
-                self.add(f'TYPED DRM_ENC {hx(wrapped_at)}', 'enc', expect_ok_bytes(opaque(bs)), 'drm-enc-ws', kf='b64-ws-nostrip')
+                    self.add(f'TYPED X2W {LANG_OTA} I PARM VALUE {hx(wrapped_at)}', 'any', expect_ok_bytes(opaque(bs)), 'ota-x2w-ws')
+                    self.add(f'TYPED RT {LANG_OTA} I PARM VALUE {hx(wrapped_at)}', 'any', expect_ok_bytes(b64), 'ota-rt-ws')
+                self.add(f'TYPED DRM_ENC {hx(wrapped_at)}', 'enc', expect_ok_bytes(opaque(bs)), 'drm-enc-ws')
+                self.add(f'TYPED DRM_ENC {hx(wrapped_el)}', 'enc', expect_ok_bytes(opaque(bs)), 'drm-enc-ws')
         # empty opaque: base64 of nothing is refused by design; the model is the reference
         self.add('TYPED B64_OPQ -', 'dec', None, 'b64-empty')
         for shp in shapes_w2x:
@@ -596,10 +601,7 @@ def run(res, args):
         impl, mod = runner.one(c), runner.model([c])[0]
         print(f'request : {c.line}\nimpl    : {impl}\nmodel   : {mod}\nexpected: {rp.get("expected")}')
         still = impl != mod or (rp.get('impl') == impl)
-        kf = known_ids.get('b64-ws-nostrip') if rp.get('stream') in ('ota-x2w-ws', 'drm-enc-ws') else None
-        if still and kf is not None and impl == mod:
-            res.known.append(f"{kf['id']}: {kf['what']}")
-        elif still:
+        if still:
             res.violation({'kind': 'replay', 'request': c.line, 'impl': impl, 'model': mod, 'expected': rp.get('expected')}, 'replay')
         return res.finish('proof', checker_cmd='replay of one TYPED line')
 
